@@ -19,7 +19,10 @@ pub const FAM_TINY: u8 = 10;
 pub const FAM_HUGE: u8 = 11;
 pub const FAM_VANISHING: u8 = 12;
 pub const FAM_NEAR_UNDERFLOW: u8 = 13;
-pub const FAMILY_NAMES: [&str; 14] = [
+/// sign-alternating records of (nearly) one magnitude: the running sum stays near zero while the
+/// running sum of squares grows (the two registers of a statistics state live on different scales)
+pub const FAM_ALTERNATING: u8 = 14;
+pub const FAMILY_NAMES: [&str; 15] = [
     "uniform-positive",
     "mixed-sign-gaussian",
     "log-uniform-wide",
@@ -34,6 +37,7 @@ pub const FAMILY_NAMES: [&str; 14] = [
     "huge-magnitudes",
     "head-plus-vanishing-increments",
     "just-above-underflow",
+    "alternating-sign-near-constant",
 ];
 pub const FAM_EXACT: u8 = 4;
 
@@ -56,7 +60,7 @@ impl TapeSpec {
         match self {
             TapeSpec::Explicit(v) => json!({"hex": v.iter().map(|b| format!("{:x}", b)).collect::<Vec<_>>() }),
             TapeSpec::Gen { family, seed, len, flt, positive, scale_exp } => json!({"gen": {
-                "family": family, "family_name": FAMILY_NAMES[*family as usize % 14], "seed": format!("{:x}", seed), "len": len,
+                "family": family, "family_name": FAMILY_NAMES[*family as usize % 15], "seed": format!("{:x}", seed), "len": len,
                 "flt": match flt { Flt::F32 => "f32", Flt::F64 => "f64", Flt::Int => "int" },
                 "positive": positive, "scale_exp": scale_exp }}),
         }
@@ -187,6 +191,15 @@ pub fn gen_tape(family: u8, seed: u64, len: usize, flt: Flt, positive: bool, sca
                     big
                 } else {
                     big * tiny_ratio
+                }
+            }
+            14 => {
+                // +a, -a, +a, ... with a exactly constant (delta below half an ulp) or nearly so
+                let a = konst * if tiny_ratio < 1e-12 { 1.0 } else { 1.0 + delta * (r.unit() - 0.5) };
+                if i % 2 == 0 {
+                    a
+                } else {
+                    -a
                 }
             }
             9 => walk_step * (1.0 + (i % 7) as f64) * if r.chance(0.9) { 1.0 } else { -1.0 },
